@@ -207,6 +207,10 @@ func runPipeline(t testing.TB, tr *tracer, o srvOpts, sc scenario, salt int, dif
 			off := uint64(wrBase + i*opStride)
 			data := bytes.Repeat([]byte{byte(200 + i%50)}, opLen)
 			ops[i] = op{fWrite(id, h, off, data), "W:" + itoa(int(off)), order, true, int(off), -1}
+		case "L": // a WRITE whose packet is exactly as long as the frame limit allows (262144 bytes after the length field)
+			off := uint64(wrBase + i*opStride)
+			data := bytes.Repeat([]byte{byte(200 + i%50)}, 256*1024-21-len(h))
+			ops[i] = op{fWrite(id, h, off, data), "W:" + itoa(int(off)), order, true, int(off), -1}
 		case "B": // read longer than the server's maximum payload, on the large file (slot 2)
 			off := uint64(8192 + i*opStride)
 			n := []uint32{40000, 65536, 32769, 200000}[i%4]
@@ -234,7 +238,7 @@ func runPipeline(t testing.TB, tr *tracer, o srvOpts, sc scenario, salt int, dif
 		s.order++
 		s.reqs = append(s.reqs, f)
 		s.mu.Unlock()
-		tr.emit("Req", kv{"o": p.order, "id": int(f.ID), "typ": f.T(), "h": f.Handle, "wf": true, "k": sc.Prog[i].K, "slot": sc.Prog[i].H, "off": p.off, "sig": p.sig})
+		tr.emit("Req", kv{"o": p.order, "id": int(f.ID), "typ": f.T(), "h": f.Handle, "wf": true, "k": map[string]string{"L": "W"}[sc.Prog[i].K] + map[bool]string{true: "", false: sc.Prog[i].K}[sc.Prog[i].K == "L"], "slot": sc.Prog[i].H, "off": p.off, "sig": p.sig})
 		s.c2s.Write(p.frame)
 	}
 	if sc.End == "eof" {
@@ -353,6 +357,10 @@ func pipelineScenarios(t testing.TB, nGen, maxLen int) []scenario {
 			scs = append(scs, sc)
 		}
 	}
+	// the largest legal frame: a WRITE of exactly 256 KiB (packet length field = 262144) in the middle of a pipeline
+	for _, end := range []string{"open", "eof"} {
+		scs = append(scs, scenario{Src: "limit", End: end, Prog: []pItem{{"W", 1}, {"L", 1}, {"M", 1}, {"R", 2}, {"L", 2}, {"M", 2}, {"C", 1}}, Rel: []int{2, 1, 4, 5}})
+	}
 	return scs
 }
 
@@ -404,7 +412,7 @@ func diffPair(t testing.TB, tr *tracer, kind string, sc scenario, salt int) {
 			if closed[2] {
 				it.K = "M"
 			}
-		case "R", "W":
+		case "R", "W", "L":
 			if closed[it.H] {
 				if other := 3 - it.H; !closed[other] {
 					it.H = other
